@@ -222,6 +222,30 @@ func (env *Env) ident(name string) Val {
 			cerr("\\ltop outside of a loop clause")
 		}
 		return intv(env.li.pre.top)
+	default:
+		if strings.HasPrefix(name, "\\local_") {
+			// a local variable of the function, by its source name (for names that are
+			// keywords of the contract language, and in postconditions)
+			if c := env.findCell(name[len("\\local_"):]); c != nil {
+				v := env.st.cells[c]
+				if v.Typ == nil {
+					v.Typ = c.Typ
+				}
+				return v
+			}
+			// declared but not yet reached on this path: the zero value
+			for _, b := range env.fr.fn.Blocks {
+				for _, ins := range b.Instrs {
+					if a, ok := ins.(*ssa.Alloc); ok && a.Comment == name[len("\\local_"):] {
+						t := a.Type().(*types.Pointer).Elem()
+						v := zero(t)
+						v.Typ = t
+						return v
+					}
+				}
+			}
+			cerr("no local variable %s in %s", name[len("\\local_"):], env.curFunc)
+		}
 	case "\\top0":
 		if env.top0 != "" {
 			return intv(env.top0)
